@@ -104,9 +104,18 @@ def describe_diff(old, new, v):
     return f"live tree mixes {mixed_o} old-only and {mixed_n} new-only files, {len(cur)} present vs old {len(o)} / new {len(n)}; {notes[:2]}"
 
 
-def run_one(chk, sseed, cls, chunk_level=False):
+def run_one(chk, sseed, cls, chunk_level=False, corpus=False):
+    """corpus: several configured codenames, and a new pool file that only a codename other than the last-configured one references
+    cannot be obtained (seed agent-C03-13): the new metadata must not go live"""
     rng = random.Random(sseed)
     w = common.World(rng, 1)
+    if corpus:
+        for t in range(60):
+            if len(w.cfgs[w.repos[0]["url"]]["codenames"]) >= 2:
+                break
+            w.destroy()
+            rng = random.Random(f"{sseed}-{t}")
+            w = common.World(rng, 1)
     try:
         repo = w.repos[0]
         url = repo["url"]
@@ -119,6 +128,25 @@ def run_one(chk, sseed, cls, chunk_level=False):
         stores2 = w.stores([new])
         on_disk = {e[0] for e in run_e2e.tree(w.sb, url)}
         plan, info = scenario.gen_plan(rng, cls, new, w.cfgs[url], stores2[url], skip_pool=on_disk)
+        if corpus:
+            cfg = w.cfgs[url]
+            order = []
+            for ln in w.lines:
+                tk = ln.split(" ")
+                k = next((i for i, x in enumerate(tk) if x.startswith("http")), None)
+                if ln.startswith("deb") and k is not None and k + 1 < len(tk):
+                    for cn in tk[k + 1].split(","):
+                        if cn in cfg["codenames"] and cn not in order:
+                            order.append(cn)
+            per = {cn: set(scenario.referenced_pool(new, dict(cfg, codenames={cn: cfg["codenames"][cn]}))) for cn in order}
+            ign = set(scenario.referenced_pool(new, cfg, ignored_only=True))
+            cands = sorted(p for cn in order[:-1] for p in per[cn] if p not in on_disk and p not in per[order[-1]] and p not in ign) if len(order) >= 2 else []
+            if not cands:
+                chk.evaluated(None)
+                chk.count("corpus:skipped(no new pool file outside the last codename)")
+                return
+            plan = [[rng.choice(cands), "*", rng.choice(["404", "500", "abort"])]]
+            chk.count("corpus_worlds_with_a_failing_file_of_an_earlier_codename")
         mon = LiveMonitor(runner.mirror_dir(w.sb, url), w.cfgs[url])
 
         def on_fs(idx, op, paths):
@@ -129,7 +157,7 @@ def run_one(chk, sseed, cls, chunk_level=False):
                                on_fs_event=on_fs,
                                pre_run=(lambda apt, cfg: install_chunk_hook(mon)) if chunk_level else None)
         mon.snapshot(len(res2.trace.events), "end")
-        replay = {"scenario_seed": sseed, "class": cls, "plan": plan, "lines": w.lines, "chunk_level": chunk_level}
+        replay = {"scenario_seed": sseed, "class": cls, "plan": plan, "lines": w.lines, "chunk_level": chunk_level, "corpus": corpus}
         common.correspondence(chk, res2, replay, control=True, publish=True)
         for sig, msg in mon.judge(res2.exit == 0):
             chk.violation(sig, replay, msg)
@@ -222,6 +250,8 @@ def run(chk, tier, rng):
     classes = ["none", "none", "transient", "persistent-required", "none"]
     for i in range(14 if tier == "quick" else 300):
         after_crash_one(chk, f"C03k-{chk.seed}-{i}")
+    for i in range(4 if tier == "quick" else 60):
+        run_one(chk, f"C03c-{chk.seed}-{i}", "persistent-required", corpus=True)
     for i in range(n):
         run_one(chk, f"C03-{chk.seed}-{i}", classes[i % len(classes)], chunk_level=(tier == "thorough" and i % 3 == 0))
     chk.assumptions += ["atomicity of rename(2) itself", "S1: immutable pool paths (an upgraded package gets a new file name)",
@@ -236,7 +266,7 @@ def replay(rep):
     if r.get("after_crash"):
         after_crash_one(chk, r["scenario_seed"])
     else:
-        run_one(chk, r["scenario_seed"], r["class"], r.get("chunk_level", False))
+        run_one(chk, r["scenario_seed"], r["class"], r.get("chunk_level", False), r.get("corpus", False))
     for sig, path, msg, _ in chk.violations:
         print(f"REPLAY VIOLATION {sig}: {msg}")
     return 1 if chk.violations else 0
